@@ -67,6 +67,7 @@ package iscp
 
 //@ typeassume connStatus: lockid(self.cond.L) == lockid(self.RWMutex)
 //@ typeassume Upstream: lockid(self.receivedAck.L) != lockid(self.mu)
+//@ typeassume Upstream: self.sequence != nil && self.sent != nil && self.eventDispatcher != nil && self.ctx != nil
 
 // ---------------------------------------------------------------- downstream aliases (C03, C04)
 
@@ -322,7 +323,7 @@ package iscp
 // ---------------------------------------------------------------- C01 / C20: cutting a chunk
 // Monitor invariant of Upstream.mu: the buffer exists, counters are not negative, an empty
 // buffer has zero counters.
-//@ lockinv[C01,C20] Upstream.mu: self.sendBuffer != nil && self.sendBufferDataPointsCount >= 0 && self.sendBufferPayloadSize >= 0 && imp(len(self.sendBuffer) == 0, self.sendBufferDataPointsCount == 0 && self.sendBufferPayloadSize == 0)
+//@ lockinv[C01,C20] Upstream.mu: self.sendBuffer != nil && self.upstreamChunkResultChs != nil && self.sendBufferDataPointsCount >= 0 && self.sendBufferPayloadSize >= 0 && imp(len(self.sendBuffer) == 0, self.sendBufferDataPointsCount == 0 && self.sendBufferPayloadSize == 0)
 
 //@ func (*Upstream).clearBuffer
 //@   inline
@@ -375,7 +376,7 @@ package iscp
 // counters are empty afterwards and the running total grew by the buffered point count.
 //@ func (*Upstream).flush
 //@   props C01 C20
-//@   requires u.sequence != nil && u.sent != nil && u.eventDispatcher != nil && u.upstreamChunkResultChs != nil && ctx != nil
+//@   requires u.sequence != nil && u.sent != nil && u.eventDispatcher != nil && ctx != nil
 //@   ghostvar stored int = 0
 //@   ghostvar started int = 0
 //@   after call sentStorage).Store: stored = stored + 1
@@ -385,3 +386,45 @@ package iscp
 //@   ensures imp(old(len(u.sendBuffer)) == 0, result == nil && stored == 0 && started == 0 && u.sequence.Current == old(u.sequence.Current) && unchanged(u.totalDataPoints))
 //@   ensures imp(old(len(u.sendBuffer)) > 0 && result == nil, stored == 1 && started == 1 && len(u.sendBuffer) == 0 && u.sendBufferDataPointsCount == 0 && u.sendBufferPayloadSize == 0)
 //@   ensures imp(old(len(u.sendBuffer)) > 0 && result == nil, u.sequence.Current == old(u.sequence.Current) + 1 && u.totalDataPoints == old(u.totalDataPoints) + old(u.sendBufferDataPointsCount))
+
+// WriteDataPoints reports success exactly when the points were handed to the flush loop
+// (an error return never leaves data behind that later shows up in the totals).
+//@ func (*Upstream).WriteDataPoints
+//@   props C20 C01
+//@   ghostvar handed bool = false
+//@   after send dpgCh: handed = true
+//@   ensures (result == nil) == handed
+//@   assert send dpgCh: v != nil && v.DataID == dataID && v.DataPoints == dps
+
+// flushLoop, per iteration: the write arm appends under the lock and then cuts a chunk iff the
+// policy says so for the buffered payload size (as uint32); the other arms may always cut.
+//@ func (*Upstream).flushLoop
+//@   props C20 C01
+//@   requires ctx != nil
+//@   ghostvar owe bool = false
+//@   ghostvar mayFlush bool = true
+//@   after recv dpgCh: mayFlush = false
+//@   after recv explicitlyFlushCh: mayFlush = true
+//@   after recv ctx.Done: mayFlush = true
+//@   after recv Ticker: mayFlush = true
+//@   after call FlushPolicy).IsFlush: owe = res0
+//@   after call FlushPolicy).IsFlush: mayFlush = res0
+//@   after call Upstream).flush: owe = false
+//@   assert call FlushPolicy).IsFlush: held(u.mu) && arg0 == u.sendBufferPayloadSize % 4294967296
+//@   assert call Upstream).flush: mayFlush && unheld(u.mu)
+//@   loop 1 invariant !owe
+
+//@ func (*DataPointGroup).payloadSize
+//@   props C20
+//@   modifies nothing
+//@   ensures result >= 0
+//@   loop 1 invariant size >= 0
+
+// closeWithError is called by flush with u.mu held when the counters would overflow. Its call
+// tree goes through application callbacks and the wire layer; the frame below (it does not touch
+// the send buffer, its counters, the result-channel table or the sequence generator) is ASSUMED,
+// not proved - it is listed as a trusted contract in the evidence.
+//@ func (*Upstream).closeWithError
+//@   trusted
+//@   ensures unchanged(u.sendBuffer) && len(u.sendBuffer) == old(len(u.sendBuffer)) && unchanged(u.upstreamChunkResultChs) && unchanged(u.sendBufferDataPointsCount) && unchanged(u.sendBufferPayloadSize)
+//@   ensures unchanged(u.sequence) && unchanged(u.sequence.Current) && unchanged(u.totalDataPoints)
